@@ -478,7 +478,9 @@ static KV genCase()
         genGeometryParams(s);
         s.R0         = s.Rmax * rpick({1e-5, 1e-3, 1e-2, 0.1});
         s.nr_exp     = rint(3, 5);
-        s.ntheta_exp = -1;
+        // -1: the automatic angular resolution (coarsest grid 5x8); a fifth of the cases ask for as many or half as many
+        // angular intervals as radial ones, whose hierarchies end in a grid with only four angular lines
+        s.ntheta_exp = rint(0, 4) == 0 ? (rbool() ? s.nr_exp : std::max(3, s.nr_exp - 1)) : -1;
         s.aniso      = 0;
         s.div        = rint(0, 1);
         s.dirbc      = rbool();
